@@ -41,5 +41,8 @@ theorem order_standardRenderer_kill : Tea.Gen.fact_order_standardRenderer_kill =
 theorem body_standardRenderer_listen : Tea.Gen.fact_body_standardRenderer_listen = Tea.Doc.fact_body_standardRenderer_listen := rfl
 theorem body_standardRenderer_halt : Tea.Gen.fact_body_standardRenderer_halt = Tea.Doc.fact_body_standardRenderer_halt := rfl
 theorem body_standardRenderer_start : Tea.Gen.fact_body_standardRenderer_start = Tea.Doc.fact_body_standardRenderer_start := rfl
+theorem order_Program_ReleaseTerminal : Tea.Gen.fact_order_Program_ReleaseTerminal = Tea.Doc.fact_order_Program_ReleaseTerminal := rfl
+theorem order_Program_RestoreTerminal : Tea.Gen.fact_order_Program_RestoreTerminal = Tea.Doc.fact_order_Program_RestoreTerminal := rfl
+theorem order_Program_exec : Tea.Gen.fact_order_Program_exec = Tea.Doc.fact_order_Program_exec := rfl
 
 end Tea.Props.Bridge.C04
